@@ -685,6 +685,12 @@ func rewriteAst(rng *rand.Rand, cfg gen.Config) *gen.Node {
 			x = &gen.Node{Kind: gen.KAnchor, Anchor: []string{"b", "$", "z", "Z", "^"}[rng.Intn(5)]}
 		}
 		if capFirst && len(parts) == 0 {
+			if rng.Intn(3) == 0 {
+				// a leading capture whose body begins with an unbounded loop (where a bump-along marker must not
+				// go: a back-reference to the group can make a start position inside the loop's span succeed)
+				l := &gen.Node{Kind: gen.KQuant, Lo: rng.Intn(2), Hi: -1, Subs: []*gen.Node{single()}}
+				x = &gen.Node{Kind: gen.KSeq, Subs: []*gen.Node{l, {Kind: gen.KLit, Ch: []rune{'b', ' ', 'a', 'c'}[rng.Intn(4)]}}}
+			}
 			x = &gen.Node{Kind: gen.KCap, Subs: []*gen.Node{x}}
 		}
 		parts = append(parts, x)
